@@ -38,15 +38,30 @@
     §7 THE ROUTINE ON NUMBERS.  `ExtFmaOK p1 p2 p3 p4 x y z m f` / `FmaOK x y z m f`: `bid128_ext_fma` / `bid128_fma` return
        `.ok` of the canonical encoding of the model's `fmaD (modeOf m) (dOf x) (dOf y) (dOf z)` datum and `f ||| flags` (and,
        for `ext_fma`, some indicators).  For three NUMBERS `x = ±c1·10^e1`, `y = ±c2·10^e2`, `z = ±c3·10^e3`, `c1·c2 ≠ 0`,
-       `c3 ≠ 0`, with `q3 = ndigits c3`, `q4 = ndigits (c1·c2)`, `delta = q3 + e3 − q4 − (e1 + e2)`:
-         `ext_fma_ok_case7` / `fma_ok_case7`        34 < q4, q3 + e3 ≤ e1 + e2                               (Case (7))
-         `ext_fma_ok_case1` / `fma_ok_case1`        delta ≥ 35, or delta = 34 and e3 + 6176 < 34 − q3         (Cases (1), (1′), (1″A))
-         `ext_fma_ok_case8` / `fma_ok_case8`        q4 ≤ 34, −delta ≥ 35, or = 34 and e1+e2+6176 < 34 − q4    (Case (8): swap, then Case (1))
-         `ext_fma_ok_case1517` / `fma_ok_case1517`  34 < q4, e1 + e2 ≤ e3, q3 + e3 < q4 + e1 + e2; given `AarSpec` (Cases (15)–(17))
-         `ext_fma_ok_arm26` / `fma_ok_arm26`        delta ∈ {0, 1}, signs of product and addend differ; given `AarSpec`
-       (`AarSpec` = the correctness of `bid_add_and_round`, C02GenFmaWrap; discharged by C02GenFmaLow when it lands).
-       The remaining cases wait for block specifications: Case (1″B) (`caseZ2`), Cases (2)–(6) and (9), (10), (13), (14), (18)
-       (`midBlock`), Cases (11), (12).
+       `c3 ≠ 0`, with `q3 = ndigits c3`, `q4 = ndigits (c1·c2)`, `delta = q3 + e3 − q4 − (e1 + e2)` (each `ext_fma_ok_*` has
+       its `fma_ok_*` twin; the tests are numeric: `case1Cond_iff`, `cond1112_iff`, `cond1517_iff` convert the code's):
+         `…_case1`        delta ≥ 35, or delta = 34 and e3 + 6176 < 34 − q3                 Cases (1), (1′), (1″A)
+         `…_case1b`       delta = 34 and e3 + 6176 ≥ 34 − q3                                Case (1″B)
+         `…_case2to6`     0 ≤ delta ≤ 33, not (delta ≤ 1 and opposite signs)                Cases (2)–(6), first pass
+         `…_arm26`        delta ∈ {0, 1}, opposite signs                                    the arm → `bid_add_and_round`
+         `…_case7`        34 < q4, q3 + e3 ≤ e1 + e2                                        Case (7)
+         `…_case1517`     34 < q4, e1 + e2 ≤ e3, q3 + e3 < q4 + e1 + e2                      Cases (15)–(17)
+         `…_case8`        q4 ≤ 34, −delta ≥ 35, or = 34 and e1+e2+6176 < 34 − q4             Case (8): swap, then Case (1)
+         `…_swap_case1b`  q4 ≤ 34, −delta = 34, e1 + e2 + 6176 ≥ 34 − q4                    swap, then Case (1″B)
+         `…_swap_arm26`   q4 ≤ 34, delta = −1, opposite signs                               swap, then the arm
+       (`AarSpec`, the correctness of `bid_add_and_round`, is discharged by `C02GenFmaWrap.aarSpec`.)
+    §8 ALL OPERANDS BUT THE REMAINING CASES.  `RemNum` / `FmaRemaining x y z`: three numbers in one of: zero product with
+       non-zero addend; non-zero product with zero addend (the `z = 0` path); Cases (11), (12); the second pass of Cases
+       (2)–(6) (old Cases (9), (10), (13), (14), (18)).  `ext_fma_ok_numbers`: the case analysis is COMPLETE — the nine
+       conditions above and `RemNum` cover all numbers.  `bid128_ext_fma_spec_partial`, `bid128_fma_spec_partial`:
+           no NaN operand, ¬ FmaRemaining x y z  ⟹  FmaOK x y z m f
+       — infinite operands (`FrontSpec.front_inf`: ∞·0, ∞ − ∞ invalid) and zero product with zero addend
+       (`front_zero_zero`) included.  NaN operands: `C12GenNaN.ext_fma_nan` / `fma_nan` (the NaN rule, not `fmaD`).
+    §9 MULTIPLICATION.  `MulOK x y m f` (`bid128_mul` returns the model's `mulD`); `MulOK.of_fma` (outside the zero case, from
+       `FmaOK y x z0`, by `C01GenMul.mul_eq_fma` / `fmaD_z0_eq_mulD`), `MulOK.of_zero`; `bid128_mul_spec_partial`: all non-NaN
+       operands except two numbers with a non-zero product (zeros of every kind, infinite operands, `∞·0`).  The non-zero
+       products are the `z = 0` path: once `FmaOK y x z0 m f` is there, `MulOK.of_fma` is the headline.
+  The state record of §4 is generated: `bin/gen_fma_state` re-lists the loop's variables from the current translation.
   Findings: none of its own (the file only transports).  Remarks: the two passes of the loop are two turns of `run`; the
   hand-over's `p_exp` is NOT clamped above (FrontSpec `hpe`), which the swapped Case (1) needs only for `e1 + e2 ≥ −6176`
   (automatic in Case (8)).
@@ -59,7 +74,10 @@ import DecProofs.Properties.C02GenFmaFrontSpec
 import DecProofs.Properties.C02GenFmaSwap
 import DecProofs.Properties.C02GenFmaWrap
 import DecProofs.Properties.C02GenFmaZH
-import DecProofs.Properties.C02GenFmaMid
+import DecProofs.Properties.C02GenFmaMidTop
+import DecProofs.Properties.C02GenFmaZQ
+import DecProofs.Properties.C02GenFmaWrapClosed
+import DecProofs.Properties.C02GenFma1112
 
 set_option linter.unusedSimpArgs false
 set_option linter.unusedVariables false
@@ -409,11 +427,12 @@ elab "ret_step" : tactic => do
 macro "ret_pos " h:term : tactic => `(tactic| (ret_step; refine ret_of_eq (if_pos $h) ?_))
 macro "ret_neg " h:term : tactic => `(tactic| (ret_step; refine ret_of_eq (if_neg $h) ?_))
 
-
+-- BEGIN GENERATED (bin/gen_fma_state)
 /-! ## 4. The state of the case loop
 
-The `for _ in [0:4096]` loop `'delta_ge_zero` of `caseLoop` carries the 44 variables its body re-assigns (in the order of
-their declaration) as a nested pair; `St` is that tuple with names, `St.init` the state in which `caseLoop` enters the loop. -/
+The `for _ in [0:4096]` loop `'delta_ge_zero` of `caseLoop` carries the 43 variables its body re-assigns (in the order of
+their declaration) and its `brk__` marker as a nested pair; `St` is that tuple with names, `St.init` the state in which
+`caseLoop` enters the loop. -/
 
 structure St where
   ptr_is_midpoint_lt_even : Bool
@@ -515,6 +534,7 @@ def St.init (p1 p2 p3 p4 : Bool) (f : UInt32) (zs ps ze pe : UInt64) (C3 : U128)
     R192 := default,
     R256 := default,
     brk := false }
+-- END GENERATED (bin/gen_fma_state)
 
 open Lean Meta Elab Command in
 /-- the body and the post-loop text of the `for` loop of `caseLoop`, cut out of its definition (the text of a loop body —
@@ -723,6 +743,26 @@ theorem run_mid (m : RoundingMode) (n : Nat) (s : St) (v : Out)
   ret_neg h1
   ret_neg h1'
   relstep Dec.C02GenFmaMid.midBlock
+
+theorem cond1112_eq : cond1112 = Dec.C02GenFma1112.cond1112 := rfl
+
+open Dec.C02GenFma1112 in
+/-- **Cases (11), (12)** in the loop: `delta < 0`, the tests of Case (7) and of the swap fail, `cond1112` holds: a turn of the
+loop returns what `C02GenFma1112.case1112K` returns on the variables of the state -/
+theorem run_case1112 (m : RoundingMode) (n : Nat) (s : St) (v : Out)
+    (hd : ¬ (decide (s.delta ≥ (0 : Int32)) = true))
+    (h7 : ¬ (decide (c_P34 < s.q4) && decide (s.q4 ≤ -s.delta)) = true)
+    (hs : ¬ swapCond s.q3 s.q4 (-s.delta) c_P34 = true)
+    (h11 : Dec.C02GenFmaAssembly.cond1112 s.q3 s.q4 (-s.delta) c_P34 = true)
+    (h : case1112K s.q3 c_P34 s.z_sign s.p_sign s.C4 m s.ptr_is_midpoint_lt_even s.ptr_is_midpoint_gt_even s.ptr_is_inexact_lt_midpoint s.ptr_is_inexact_gt_midpoint s.pfpsf s.res s.C3 s.e3 s.e4 s.scale s.ind s.x0 s.is_midpoint_lt_even s.is_midpoint_gt_even s.is_inexact_lt_midpoint s.is_inexact_gt_midpoint s.is_midpoint_lt_even0 s.is_midpoint_gt_even0 s.is_inexact_lt_midpoint0 s.is_inexact_gt_midpoint0 s.incr_exp s.lsb s.lt_half_ulp s.eq_half_ulp s.gt_half_ulp s.is_tiny s.R64 s.P128 s.R128 s.P192 s.R192 s.R256 = .ok v) :
+    run m (n + 1) s = .ok v := by
+  refine run_returns m n s _ v h ?_
+  delta caseBody St.tup
+  ret_neg hd
+  ret_neg h7
+  ret_neg hs
+  ret_pos h11
+  relstep Dec.C02GenFma1112.case1112K
 
 /-! ### examples: `caseLoop` itself, run on concrete hand-overs -/
 
@@ -1087,6 +1127,114 @@ theorem ext_fma_swap_arm26 (haar : AarSpec) (p1 p2 p3 p4 : Bool) (x y z : U128) 
       rw [H.hps, H.hzs, Dec.C02GenFmaSwap.sgnW_bne]; cases hh : (s1 != s2) <;> cases s3 <;> simp_all
     rw [e1', e2']; simp
 
+open Dec.C02GenFmaZ in
+/-- **Case (1″B) for the routine** (first pass): `delta = 34` and the test of Case (1) fails -/
+theorem ext_fma_caseZ2 (p1 p2 p3 p4 : Bool) (x y z : U128) (m : RoundingMode) (f : UInt32)
+    {s1 s2 s3 : Bool} {c1 c2 c3 : Nat} {e1 e2 e3 : Int} {zs ps ze pe : UInt64} {C3 : U128} {C4 : U256} {q3 q4 e3w e4w : Int32}
+    (H : HandoverFacts s1 s2 s3 c1 c2 c3 e1 e2 e3 zs ps ze pe C3 C4 q3 q4 e3w e4w) (tmp : F64U)
+    (hfront : bid128_ext_fma p1 p2 p3 p4 x y z m f = caseLoop p1 p2 p3 p4 m f zs ps ze pe C3 C4 q3 q4 e3w e4w tmp)
+    (hd : (ndigits c3 : Int) + e3 - ndigits (c1 * c2) - (e1 + e2) = 34)
+    (hcase : case1Cond q3 e3w (q3 + e3w - q4 - e4w) c_P34 = false) :
+    ∃ lt gt ilt igt : Bool, bid128_ext_fma p1 p2 p3 p4 x y z m f =
+      .ok (ofBits (encode (fmaD (modeOf m) false (.fin s1 c1 e1) (.fin s2 c2 e2) (.fin s3 c3 e3)).1), lt, gt, ilt, igt,
+        f ||| UInt32.ofNat (fmaD (modeOf m) false (.fin s1 c1 e1) (.fin s2 c2 e2) (.fin s3 c3 e3)).2) := by
+  have hdv := H.delta_val
+  have h34 : (c_P34 == (q3 + e3w - q4 - e4w)) = true := by
+    rw [beq_iff_eq, ← Int32.toInt_inj, hdv, hd]; rfl
+  obtain ⟨lt, gt, ilt, igt, h⟩ := caseZ2_spec C3 C4 q3 q4 e3w (q3 + e3w - q4 - e4w) c_P34 zs ps ze s3 (s1 != s2) c3 (c1 * c2)
+    e3 (e1 + e2) H.zinv hcase h34 p1 p2 p3 p4 m f (⟨(0xbaddbaddbaddbadd : UInt64), (0xbaddbaddbaddbadd : UInt64)⟩ : U128)
+    default default default default default default default (if e1 + e2 ≤ e3 then e1 + e2 else e3)
+  refine ⟨lt, gt, ilt, igt, ?_⟩
+  rw [hfront, caseLoop_eq]
+  refine run_caseZ2 m 4095 _ _ ?_ (ne_true_of_eq_false hcase) h34 h
+  rw [decide_eq_true_eq, ge_iff_le, Int32.le_iff_toInt_le]
+  show (0 : Int) ≤ (q3 + e3w - q4 - e4w).toInt
+  rw [hdv, hd]; decide
+
+open Dec.C02GenFmaZ in
+/-- **Case (1″B) after the swap** (second pass): product of at most 34 digits, `−delta = 34`, the test of Case (1) fails on
+the swapped variables -/
+theorem ext_fma_swap_caseZ2 (p1 p2 p3 p4 : Bool) (x y z : U128) (m : RoundingMode) (f : UInt32)
+    {s1 s2 s3 : Bool} {c1 c2 c3 : Nat} {e1 e2 e3 : Int} {zs ps ze pe : UInt64} {C3 : U128} {C4 : U256} {q3 q4 e3w e4w : Int32}
+    (H : HandoverFacts s1 s2 s3 c1 c2 c3 e1 e2 e3 zs ps ze pe C3 C4 q3 q4 e3w e4w) (tmp : F64U)
+    (hfront : bid128_ext_fma p1 p2 p3 p4 x y z m f = caseLoop p1 p2 p3 p4 m f zs ps ze pe C3 C4 q3 q4 e3w e4w tmp)
+    (hd : (ndigits c3 : Int) + e3 - ndigits (c1 * c2) - (e1 + e2) = -34) (hq4 : ndigits (c1 * c2) ≤ 34)
+    (hcase : case1Cond q4 e4w (-(q3 + e3w - q4 - e4w)) c_P34 = false) :
+    ∃ lt gt ilt igt : Bool, bid128_ext_fma p1 p2 p3 p4 x y z m f =
+      .ok (ofBits (encode (fmaD (modeOf m) false (.fin s1 c1 e1) (.fin s2 c2 e2) (.fin s3 c3 e3)).1), lt, gt, ilt, igt,
+        f ||| UInt32.ofNat (fmaD (modeOf m) false (.fin s1 c1 e1) (.fin s2 c2 e2) (.fin s3 c3 e3)).2) := by
+  have a := H.q3_range; have b := H.q4_range
+  have h1 := H.e1lo; have h2 := H.e1hi; have h3 := H.e2lo; have h4 := H.e2hi; have h5 := H.e3lo; have h6 := H.e3hi
+  have hdv := H.delta_val
+  have hnd : (-(q3 + e3w - q4 - e4w)).toInt = (ndigits (c1 * c2) : Int) + (e1 + e2) - ndigits c3 - e3 := by
+    rw [i32neg _ _ hdv (by omega) (by omega)]; omega
+  have h34 : (c_P34 == (-(q3 + e3w - q4 - e4w))) = true := by
+    rw [beq_iff_eq, ← Int32.toInt_inj, hnd]; show (34 : Int) = _; omega
+  obtain ⟨lt, gt, ilt, igt, h⟩ := caseZ2_spec _ _ q4 q3 e4w (-(q3 + e3w - q4 - e4w)) c_P34 ps zs pe (s1 != s2) s3 (c1 * c2) c3
+    (e1 + e2) e3 (H.zinv_swapped hq4 (by omega)) hcase h34 p1 p2 p3 p4 m f
+    (⟨(0xbaddbaddbaddbadd : UInt64), (0xbaddbaddbaddbadd : UInt64)⟩ : U128)
+    default default ⟨C3.w0, C3.w1⟩ default default default default (if e1 + e2 ≤ e3 then e1 + e2 else e3)
+  rw [addFin_comm] at h
+  refine ⟨lt, gt, ilt, igt, ?_⟩
+  rw [hfront, first_pass_swaps p1 p2 p3 p4 m f H tmp (by omega) hq4]
+  refine run_caseZ2 m 4094 _ _ ?_ (ne_true_of_eq_false hcase) h34 h
+  rw [decide_eq_true_eq, ge_iff_le, Int32.le_iff_toInt_le]
+  show (0 : Int) ≤ (-(q3 + e3w - q4 - e4w)).toInt
+  rw [hnd]; omega
+
+open Dec.C02GenFmaMid in
+/-- the entry invariant of block Mid (first pass), from the hand-over -/
+theorem HandoverFacts.midinv {s1 s2 s3 : Bool} {c1 c2 c3 : Nat} {e1 e2 e3 : Int} {zs ps ze pe : UInt64} {C3 : U128} {C4 : U256}
+    {q3 q4 e3w e4w : Int32} (H : HandoverFacts s1 s2 s3 c1 c2 c3 e1 e2 e3 zs ps ze pe C3 C4 q3 q4 e3w e4w)
+    (hd0 : 0 ≤ (ndigits c3 : Int) + e3 - ndigits (c1 * c2) - (e1 + e2))
+    (hd1 : (ndigits c3 : Int) + e3 - ndigits (c1 * c2) - (e1 + e2) ≤ 33) :
+    EntryInv C3 C4 q3 q4 e3w e4w (q3 + e3w - q4 - e4w) c_P34 zs ps c3 (c1 * c2) e3 (e1 + e2) s3 (s1 != s2) := by
+  have h1 := H.e1lo; have h2 := H.e1hi; have h3 := H.e2lo; have h4 := H.e2hi; have h5 := H.e3lo; have h6 := H.e3hi
+  have hdv := H.delta_val
+  refine ⟨?_, ⟨H.c3pos, H.c3lt⟩, H.hq3, H.he3, ⟨h5, h6⟩, ?_, ⟨H.prod_pos, ?_⟩, H.hq4, H.he4, ⟨by omega, by omega⟩, hdv,
+    ⟨by rw [hdv]; exact hd0, by rw [hdv]; exact hd1⟩, rfl, ?_, ?_⟩
+  · rw [← H.hC3]; unfold Dec.C03GenCompare.val128 v128; omega
+  · rw [← H.hC4]; unfold Dec.C03GenCompare.val256 v256; omega
+  · calc c1 * c2 < 10 ^ 34 * 10 ^ 34 := Nat.mul_lt_mul'' H.c1lt H.c2lt
+      _ = P34 * P34 := by decide
+  · rw [H.hzs, sgnW_toNat]
+  · rw [H.hps, sgnW_toNat]
+
+open Dec.C02GenFmaMid in
+/-- **Cases (2)–(6) for the routine** (first pass): `0 ≤ delta ≤ 33`, and not (`delta ≤ 1` with opposite signs) -/
+theorem ext_fma_mid (p1 p2 p3 p4 : Bool) (x y z : U128) (m : RoundingMode) (f : UInt32)
+    {s1 s2 s3 : Bool} {c1 c2 c3 : Nat} {e1 e2 e3 : Int} {zs ps ze pe : UInt64} {C3 : U128} {C4 : U256} {q3 q4 e3w e4w : Int32}
+    (H : HandoverFacts s1 s2 s3 c1 c2 c3 e1 e2 e3 zs ps ze pe C3 C4 q3 q4 e3w e4w) (tmp : F64U)
+    (hfront : bid128_ext_fma p1 p2 p3 p4 x y z m f = caseLoop p1 p2 p3 p4 m f zs ps ze pe C3 C4 q3 q4 e3w e4w tmp)
+    (hd0 : 0 ≤ (ndigits c3 : Int) + e3 - ndigits (c1 * c2) - (e1 + e2))
+    (hd1 : (ndigits c3 : Int) + e3 - ndigits (c1 * c2) - (e1 + e2) ≤ 33)
+    (hcase : ¬ ((ndigits c3 : Int) + e3 - ndigits (c1 * c2) - (e1 + e2) ≤ 1 ∧ (s1 != s2) ≠ s3)) :
+    ∃ lt gt ilt igt : Bool, bid128_ext_fma p1 p2 p3 p4 x y z m f =
+      .ok (ofBits (encode (fmaD (modeOf m) false (.fin s1 c1 e1) (.fin s2 c2 e2) (.fin s3 c3 e3)).1), lt, gt, ilt, igt,
+        f ||| UInt32.ofNat (fmaD (modeOf m) false (.fin s1 c1 e1) (.fin s2 c2 e2) (.fin s3 c3 e3)).2) := by
+  have a := H.q3_range; have b := H.q4_range
+  have h1 := H.e1lo; have h2 := H.e1hi; have h3 := H.e2lo; have h4 := H.e2hi; have h5 := H.e3lo; have h6 := H.e3hi
+  have hdv := H.delta_val
+  obtain ⟨lt, gt, ilt, igt, h⟩ := midBlock_spec p1 p2 p3 p4 m f (⟨(0xbaddbaddbaddbadd : UInt64), (0xbaddbaddbaddbadd : UInt64)⟩ : U128)
+    zs ps default C3 C4 q3 q4 e3w e4w default default (q3 + e3w - q4 - e4w) default c_P34 default default default default false
+    default default default default default default default default c3 (c1 * c2) e3 (e1 + e2) s3 (s1 != s2)
+    (H.midinv hd0 hd1) (by rw [hdv]; exact hcase)
+  refine ⟨lt, gt, ilt, igt, ?_⟩
+  have k34 : (c_P34 : Int32).toInt = 34 := rfl
+  have hdm1 : (q3 + e3w - q4 - e4w - 1).toInt = (ndigits c3 : Int) + e3 - ndigits (c1 * c2) - (e1 + e2) - 1 :=
+    i32sub _ 1 _ 1 hdv rfl (by omega) (by omega)
+  rw [hfront, caseLoop_eq]
+  refine run_mid m 4095 _ _ ?_ ?_ ?_ h
+  · rw [decide_eq_true_eq, ge_iff_le, Int32.le_iff_toInt_le]
+    show (0 : Int) ≤ (q3 + e3w - q4 - e4w).toInt
+    rw [hdv]; exact hd0
+  · show ¬ case1Cond q3 e3w (q3 + e3w - q4 - e4w) c_P34 = true
+    unfold case1Cond
+    rw [Bool.or_eq_true, Bool.and_eq_true, decide_eq_true_eq, beq_iff_eq, Int32.le_iff_toInt_le, ← Int32.toInt_inj, hdm1, hdv, k34]
+    omega
+  · show ¬ (c_P34 == (q3 + e3w - q4 - e4w)) = true
+    rw [beq_iff_eq, ← Int32.toInt_inj, hdv, k34]; omega
+
 
 /-! ## 7. `bid128_ext_fma` and `bid128_fma` on numbers, case by case (tests in terms of digit counts and exponents) -/
 
@@ -1200,9 +1348,9 @@ theorem ext_fma_ok_case8 (p1 p2 p3 p4 : Bool) (hq4 : ndigits (c1 * c2) ≤ 34)
   exact hcase
 
 open Dec.C02GenFmaWrap in
-/-- **Cases (15)–(17)**, given `AarSpec`: product of more than 34 digits, addend reaching into its digits from above its last
+/-- **Cases (15)–(17)**: product of more than 34 digits, addend reaching into its digits from above its last
 digit but not above its first (`e1 + e2 ≤ e3`, `q3 + e3 ≤ q4 + e1 + e2`) -/
-theorem ext_fma_ok_case1517 (haar : AarSpec) (p1 p2 p3 p4 : Bool) (h34 : 34 < ndigits (c1 * c2))
+theorem ext_fma_ok_case1517 (p1 p2 p3 p4 : Bool) (h34 : 34 < ndigits (c1 * c2))
     (hlo : e1 + e2 ≤ e3) (hd : (ndigits c3 : Int) + e3 < ndigits (c1 * c2) + (e1 + e2)) :
     ExtFmaOK p1 p2 p3 p4 x y z m f := by
   obtain ⟨zs, ps, ze, pe, C3, C4, q3, q4, e3w, e4w, tmp, hh, hfront⟩ := front_spec p1 p2 p3 p4 x y z m f hx hy hz h12 h3
@@ -1215,36 +1363,95 @@ theorem ext_fma_ok_case1517 (haar : AarSpec) (p1 p2 p3 p4 : Bool) (h34 : 34 < nd
   have hq3' := H.hq3; have hq4' := H.hq4
   have r : Rng q3 q4 (-(q3 + e3w - q4 - e4w)) := ⟨by omega, by omega, by omega, by omega, by omega, by omega⟩
   unfold ExtFmaOK; rw [hx, hy, hz]
-  refine ext_fma_case1517 haar p1 p2 p3 p4 x y z m f H tmp hfront (by omega) ?_ ?_ ?_ ?_
+  refine ext_fma_case1517 aarSpec p1 p2 p3 p4 x y z m f H tmp hfront (by omega) ?_ ?_ ?_ ?_
   · rw [show c_P34 = (34 : Int32) from rfl, case7Cond_iff q3 q4 _, decide_eq_true_eq, hnd, hq4']; omega
   · rw [show c_P34 = (34 : Int32) from rfl, swapCond_iff q3 q4 _ r, decide_eq_true_eq, hq4']; omega
   · rw [show c_P34 = (34 : Int32) from rfl, cond1112_iff q3 q4 _ r, decide_eq_true_eq, hnd, hq4', hq3']; omega
   · rw [show c_P34 = (34 : Int32) from rfl, cond1517_iff q3 q4 _ r, decide_eq_true_eq, hnd, hq4', hq3']; omega
 
 open Dec.C02GenFmaWrap in
-/-- **the arm of Cases (2)–(6)** (first pass), given `AarSpec`: `delta ∈ {0, 1}` and opposite signs -/
-theorem ext_fma_ok_arm26 (haar : AarSpec) (p1 p2 p3 p4 : Bool)
+/-- **the arm of Cases (2)–(6)** (first pass): `delta ∈ {0, 1}` and opposite signs -/
+theorem ext_fma_ok_arm26 (p1 p2 p3 p4 : Bool)
     (hd0 : 0 ≤ (ndigits c3 : Int) + e3 - ndigits (c1 * c2) - (e1 + e2))
     (hd1 : (ndigits c3 : Int) + e3 - ndigits (c1 * c2) - (e1 + e2) ≤ 1) (hsign : (s1 != s2) ≠ s3) :
     ExtFmaOK p1 p2 p3 p4 x y z m f := by
   obtain ⟨zs, ps, ze, pe, C3, C4, q3, q4, e3w, e4w, tmp, hh, hfront⟩ := front_spec p1 p2 p3 p4 x y z m f hx hy hz h12 h3
   unfold ExtFmaOK; rw [hx, hy, hz]
-  exact ext_fma_arm26 haar p1 p2 p3 p4 x y z m f (HandoverFacts.of hh h12 h3) tmp hfront hd0 hd1 hsign
+  exact ext_fma_arm26 aarSpec p1 p2 p3 p4 x y z m f (HandoverFacts.of hh h12 h3) tmp hfront hd0 hd1 hsign
 
 open Dec.C02GenFmaWrap in
-/-- **the arm after the swap** (second pass), given `AarSpec`: product of at most 34 digits, `delta = −1`, opposite signs -/
-theorem ext_fma_ok_swap_arm26 (haar : AarSpec) (p1 p2 p3 p4 : Bool) (hq4 : ndigits (c1 * c2) ≤ 34)
+/-- **the arm after the swap** (second pass): product of at most 34 digits, `delta = −1`, opposite signs -/
+theorem ext_fma_ok_swap_arm26 (p1 p2 p3 p4 : Bool) (hq4 : ndigits (c1 * c2) ≤ 34)
     (hd : (ndigits c3 : Int) + e3 - ndigits (c1 * c2) - (e1 + e2) = -1) (hsign : (s1 != s2) ≠ s3) :
     ExtFmaOK p1 p2 p3 p4 x y z m f := by
   obtain ⟨zs, ps, ze, pe, C3, C4, q3, q4, e3w, e4w, tmp, hh, hfront⟩ := front_spec p1 p2 p3 p4 x y z m f hx hy hz h12 h3
   unfold ExtFmaOK; rw [hx, hy, hz]
-  exact ext_fma_swap_arm26 haar p1 p2 p3 p4 x y z m f (HandoverFacts.of hh h12 h3) tmp hfront hd hq4 hsign
+  exact ext_fma_swap_arm26 aarSpec p1 p2 p3 p4 x y z m f (HandoverFacts.of hh h12 h3) tmp hfront hd hq4 hsign
+
+/-- **Case (1″B)** (first pass): `delta = 34` and `e3 + 6176 ≥ 34 − q3` (the addend can be padded to 34 digits) -/
+theorem ext_fma_ok_case1b (p1 p2 p3 p4 : Bool)
+    (hd : (ndigits c3 : Int) + e3 - ndigits (c1 * c2) - (e1 + e2) = 34) (hpad : ¬ e3 + 6176 < 34 - (ndigits c3 : Int)) :
+    ExtFmaOK p1 p2 p3 p4 x y z m f := by
+  obtain ⟨zs, ps, ze, pe, C3, C4, q3, q4, e3w, e4w, tmp, hh, hfront⟩ := front_spec p1 p2 p3 p4 x y z m f hx hy hz h12 h3
+  have H := HandoverFacts.of hh h12 h3
+  have a := H.q3_range; have b := H.q4_range
+  have h1 := H.e1lo; have h2 := H.e1hi; have h3' := H.e2lo; have h4 := H.e2hi; have h5 := H.e3lo; have h6 := H.e3hi
+  have hdv := H.delta_val
+  unfold ExtFmaOK; rw [hx, hy, hz]
+  refine ext_fma_caseZ2 p1 p2 p3 p4 x y z m f H tmp hfront hd ?_
+  rw [show c_P34 = (34 : Int32) from rfl, case1Cond_iff q3 e3w _ (by rw [H.hq3]; omega) (by rw [H.hq3]; omega)
+    (by rw [H.he3]; omega) (by rw [H.he3]; omega) (by rw [hdv]; omega) (by rw [hdv]; omega), decide_eq_false_iff_not, hdv,
+    H.he3, H.hq3]
+  omega
+
+/-- **Case (1″B) after the swap**: product of at most 34 digits, `−delta = 34`, `e1 + e2 + 6176 ≥ 34 − q4` -/
+theorem ext_fma_ok_swap_case1b (p1 p2 p3 p4 : Bool) (hq4 : ndigits (c1 * c2) ≤ 34)
+    (hd : (ndigits c3 : Int) + e3 - ndigits (c1 * c2) - (e1 + e2) = -34)
+    (hpad : ¬ (e1 + e2) + 6176 < 34 - (ndigits (c1 * c2) : Int)) :
+    ExtFmaOK p1 p2 p3 p4 x y z m f := by
+  obtain ⟨zs, ps, ze, pe, C3, C4, q3, q4, e3w, e4w, tmp, hh, hfront⟩ := front_spec p1 p2 p3 p4 x y z m f hx hy hz h12 h3
+  have H := HandoverFacts.of hh h12 h3
+  have a := H.q3_range; have b := H.q4_range
+  have h1 := H.e1lo; have h2 := H.e1hi; have h3' := H.e2lo; have h4 := H.e2hi; have h5 := H.e3lo; have h6 := H.e3hi
+  have hdv := H.delta_val
+  have hnd : (-(q3 + e3w - q4 - e4w)).toInt = (ndigits (c1 * c2) : Int) + (e1 + e2) - ndigits c3 - e3 := by
+    rw [i32neg _ _ hdv (by omega) (by omega)]; omega
+  unfold ExtFmaOK; rw [hx, hy, hz]
+  refine ext_fma_swap_caseZ2 p1 p2 p3 p4 x y z m f H tmp hfront hd hq4 ?_
+  rw [show c_P34 = (34 : Int32) from rfl, case1Cond_iff q4 e4w _ (by rw [H.hq4]; omega) (by rw [H.hq4]; omega)
+    (by rw [H.he4]; omega) (by rw [H.he4]; omega) (by rw [hnd]; omega) (by rw [hnd]; omega), decide_eq_false_iff_not, hnd,
+    H.he4, H.hq4]
+  omega
+
+/-- **Cases (2)–(6)** (first pass): `0 ≤ delta ≤ 33`, and not (`delta ≤ 1` with opposite signs) -/
+theorem ext_fma_ok_case2to6 (p1 p2 p3 p4 : Bool)
+    (hd0 : 0 ≤ (ndigits c3 : Int) + e3 - ndigits (c1 * c2) - (e1 + e2))
+    (hd1 : (ndigits c3 : Int) + e3 - ndigits (c1 * c2) - (e1 + e2) ≤ 33)
+    (hcase : ¬ ((ndigits c3 : Int) + e3 - ndigits (c1 * c2) - (e1 + e2) ≤ 1 ∧ (s1 != s2) ≠ s3)) :
+    ExtFmaOK p1 p2 p3 p4 x y z m f := by
+  obtain ⟨zs, ps, ze, pe, C3, C4, q3, q4, e3w, e4w, tmp, hh, hfront⟩ := front_spec p1 p2 p3 p4 x y z m f hx hy hz h12 h3
+  unfold ExtFmaOK; rw [hx, hy, hz]
+  exact ext_fma_mid p1 p2 p3 p4 x y z m f (HandoverFacts.of hh h12 h3) tmp hfront hd0 hd1 hcase
 
 /-! the same for `bid128_fma` -/
 
-theorem fma_ok_swap_arm26 (haar : Dec.C02GenFmaWrap.AarSpec) (hq4 : ndigits (c1 * c2) ≤ 34)
+theorem fma_ok_case1b (hd : (ndigits c3 : Int) + e3 - ndigits (c1 * c2) - (e1 + e2) = 34)
+    (hpad : ¬ e3 + 6176 < 34 - (ndigits c3 : Int)) : FmaOK x y z m f :=
+  FmaOK.of_ext (ext_fma_ok_case1b x y z m f hx hy hz h12 h3 _ _ _ _ hd hpad)
+
+theorem fma_ok_swap_case1b (hq4 : ndigits (c1 * c2) ≤ 34)
+    (hd : (ndigits c3 : Int) + e3 - ndigits (c1 * c2) - (e1 + e2) = -34)
+    (hpad : ¬ (e1 + e2) + 6176 < 34 - (ndigits (c1 * c2) : Int)) : FmaOK x y z m f :=
+  FmaOK.of_ext (ext_fma_ok_swap_case1b x y z m f hx hy hz h12 h3 _ _ _ _ hq4 hd hpad)
+
+theorem fma_ok_case2to6 (hd0 : 0 ≤ (ndigits c3 : Int) + e3 - ndigits (c1 * c2) - (e1 + e2))
+    (hd1 : (ndigits c3 : Int) + e3 - ndigits (c1 * c2) - (e1 + e2) ≤ 33)
+    (hcase : ¬ ((ndigits c3 : Int) + e3 - ndigits (c1 * c2) - (e1 + e2) ≤ 1 ∧ (s1 != s2) ≠ s3)) : FmaOK x y z m f :=
+  FmaOK.of_ext (ext_fma_ok_case2to6 x y z m f hx hy hz h12 h3 _ _ _ _ hd0 hd1 hcase)
+
+theorem fma_ok_swap_arm26 (hq4 : ndigits (c1 * c2) ≤ 34)
     (hd : (ndigits c3 : Int) + e3 - ndigits (c1 * c2) - (e1 + e2) = -1) (hsign : (s1 != s2) ≠ s3) : FmaOK x y z m f :=
-  FmaOK.of_ext (ext_fma_ok_swap_arm26 x y z m f hx hy hz h12 h3 haar _ _ _ _ hq4 hd hsign)
+  FmaOK.of_ext (ext_fma_ok_swap_arm26 x y z m f hx hy hz h12 h3 _ _ _ _ hq4 hd hsign)
 
 
 theorem fma_ok_case7 (h34 : 34 < ndigits (c1 * c2)) (hlow : (ndigits c3 : Int) + e3 ≤ e1 + e2) : FmaOK x y z m f :=
@@ -1262,14 +1469,14 @@ theorem fma_ok_case8 (hq4 : ndigits (c1 * c2) ≤ 34)
     FmaOK x y z m f :=
   FmaOK.of_ext (ext_fma_ok_case8 x y z m f hx hy hz h12 h3 _ _ _ _ hq4 hcase)
 
-theorem fma_ok_case1517 (haar : Dec.C02GenFmaWrap.AarSpec) (h34 : 34 < ndigits (c1 * c2))
+theorem fma_ok_case1517 (h34 : 34 < ndigits (c1 * c2))
     (hlo : e1 + e2 ≤ e3) (hd : (ndigits c3 : Int) + e3 < ndigits (c1 * c2) + (e1 + e2)) : FmaOK x y z m f :=
-  FmaOK.of_ext (ext_fma_ok_case1517 x y z m f hx hy hz h12 h3 haar _ _ _ _ h34 hlo hd)
+  FmaOK.of_ext (ext_fma_ok_case1517 x y z m f hx hy hz h12 h3 _ _ _ _ h34 hlo hd)
 
-theorem fma_ok_arm26 (haar : Dec.C02GenFmaWrap.AarSpec)
+theorem fma_ok_arm26
     (hd0 : 0 ≤ (ndigits c3 : Int) + e3 - ndigits (c1 * c2) - (e1 + e2))
     (hd1 : (ndigits c3 : Int) + e3 - ndigits (c1 * c2) - (e1 + e2) ≤ 1) (hsign : (s1 != s2) ≠ s3) : FmaOK x y z m f :=
-  FmaOK.of_ext (ext_fma_ok_arm26 x y z m f hx hy hz h12 h3 haar _ _ _ _ hd0 hd1 hsign)
+  FmaOK.of_ext (ext_fma_ok_arm26 x y z m f hx hy hz h12 h3 _ _ _ _ hd0 hd1 hsign)
 
 end final
 
@@ -1283,5 +1490,155 @@ example : FmaOK ⟨100000000000000001, 0x3040000000000000⟩ ⟨1000000000000000
 example : (bid128_fma ⟨100000000000000001, 0x3040000000000000⟩ ⟨100000000000000005, 0x3040000000000000⟩
       ⟨3, 0x303c000000000000⟩ .NearestEven 0).toOption =
     some (ofBits (encode (.fin false 1000000000000000060000000000000001 1)), 0x20) := by decide +kernel
+
+
+/-! ## 8. All operands but the remaining cases -/
+
+/-- the cases of three numbers NOT yet connected to the model, on numbers (`q3 = ndigits c3`, `q4 = ndigits (c1·c2)`,
+`d = q4 + (e1 + e2) − q3 − e3 = −delta`):
+  * a zero product with a non-zero addend (answered in the front end, `prodZeroK`; specification in progress in
+    C02GenFmaFrontSpec);
+  * a non-zero product with a zero addend (the `z = 0` path `z0K`: all of multiplication; in progress);
+  * Cases (11), (12): `d > 0`, `34 < q4`, `d < q4 < d + q3` (block plugged: `run_case1112`; its specification
+    `C02GenFma1112.case1112_partial` is not yet `= fmaD`);
+  * the second pass of Cases (2)–(6) (old Cases (9), (10), (13), (14), (18)): `d > 0`, `q4 ≤ 34`, `d ≤ 33`, not (`d ≤ 1` with
+    opposite signs) (block plugged: `run_swap` + `run_mid`; `midBlock_spec` holds under the first-pass invariant only) -/
+def RemNum (s1 s2 s3 : Bool) (c1 c2 c3 : Nat) (e1 e2 e3 : Int) : Prop :=
+  (c1 * c2 = 0 ∧ c3 ≠ 0) ∨ (c1 * c2 ≠ 0 ∧ c3 = 0) ∨
+  (c1 * c2 ≠ 0 ∧ c3 ≠ 0 ∧ 0 < (ndigits (c1 * c2) : Int) + (e1 + e2) - ndigits c3 - e3 ∧
+    ((34 < ndigits (c1 * c2) ∧ (ndigits (c1 * c2) : Int) + (e1 + e2) - ndigits c3 - e3 < ndigits (c1 * c2) ∧
+        (ndigits (c1 * c2) : Int) < (ndigits (c1 * c2) : Int) + (e1 + e2) - ndigits c3 - e3 + ndigits c3) ∨
+     (ndigits (c1 * c2) ≤ 34 ∧ (ndigits (c1 * c2) : Int) + (e1 + e2) - ndigits c3 - e3 ≤ 33 ∧
+        ¬ ((ndigits (c1 * c2) : Int) + (e1 + e2) - ndigits c3 - e3 ≤ 1 ∧ (s1 != s2) ≠ s3))))
+
+/-- the remaining cases, for operands: three numbers in one of the cases of `RemNum` -/
+def FmaRemaining (x y z : U128) : Prop :=
+  ∃ s1 c1 e1 s2 c2 e2 s3 c3 e3, dOf x = .fin s1 c1 e1 ∧ dOf y = .fin s2 c2 e2 ∧ dOf z = .fin s3 c3 e3 ∧
+    RemNum s1 s2 s3 c1 c2 c3 e1 e2 e3
+
+theorem fin_of_not_special (d : Datum) (h1 : d.isNaN = false) (h2 : d.isInf = false) : ∃ s c e, d = .fin s c e := by
+  cases d with
+  | fin s c e => exact ⟨s, c, e, rfl⟩
+  | inf s => simp [Datum.isInf] at h2
+  | nan s g p => simp [Datum.isNaN] at h1
+
+/-- three numbers with non-zero product and non-zero addend, outside Cases (11), (12) and the second pass of Cases (2)–(6) -/
+theorem ext_fma_ok_numbers (p1 p2 p3 p4 : Bool) (x y z : U128) (m : RoundingMode) (f : UInt32)
+    {s1 s2 s3 : Bool} {c1 c2 c3 : Nat} {e1 e2 e3 : Int}
+    (hx : dOf x = .fin s1 c1 e1) (hy : dOf y = .fin s2 c2 e2) (hz : dOf z = .fin s3 c3 e3) (h12 : c1 * c2 ≠ 0) (h3 : c3 ≠ 0)
+    (hrem : ¬ RemNum s1 s2 s3 c1 c2 c3 e1 e2 e3) : ExtFmaOK p1 p2 p3 p4 x y z m f := by
+  have hq3 : 1 ≤ ndigits c3 := ndigits_pos (Nat.pos_of_ne_zero h3)
+  have hq4 : 1 ≤ ndigits (c1 * c2) := ndigits_pos (Nat.pos_of_ne_zero h12)
+  unfold RemNum at hrem
+  by_cases hd : 0 ≤ (ndigits c3 : Int) + e3 - ndigits (c1 * c2) - (e1 + e2)
+  · -- `delta ≥ 0`
+    by_cases hc1 : 35 ≤ (ndigits c3 : Int) + e3 - ndigits (c1 * c2) - (e1 + e2) ∨
+        ((ndigits c3 : Int) + e3 - ndigits (c1 * c2) - (e1 + e2) = 34 ∧ e3 + 6176 < 34 - (ndigits c3 : Int))
+    · exact ext_fma_ok_case1 x y z m f hx hy hz h12 h3 p1 p2 p3 p4 hc1
+    by_cases h34 : (ndigits c3 : Int) + e3 - ndigits (c1 * c2) - (e1 + e2) = 34
+    · exact ext_fma_ok_case1b x y z m f hx hy hz h12 h3 p1 p2 p3 p4 h34 (by omega)
+    by_cases harm : (ndigits c3 : Int) + e3 - ndigits (c1 * c2) - (e1 + e2) ≤ 1 ∧ (s1 != s2) ≠ s3
+    · exact ext_fma_ok_arm26 x y z m f hx hy hz h12 h3 p1 p2 p3 p4 hd harm.1 harm.2
+    · exact ext_fma_ok_case2to6 x y z m f hx hy hz h12 h3 p1 p2 p3 p4 hd (by omega) harm
+  · -- `delta < 0`
+    by_cases hq : 34 < ndigits (c1 * c2)
+    · by_cases h7 : (ndigits c3 : Int) + e3 ≤ e1 + e2
+      · exact ext_fma_ok_case7 x y z m f hx hy hz h12 h3 p1 p2 p3 p4 hq h7
+      by_cases h11 : (ndigits (c1 * c2) : Int) < (ndigits (c1 * c2) : Int) + (e1 + e2) - ndigits c3 - e3 + ndigits c3
+      · exact absurd (Or.inr (Or.inr ⟨h12, h3, by omega, Or.inl ⟨hq, by omega, h11⟩⟩)) hrem
+      · exact ext_fma_ok_case1517 x y z m f hx hy hz h12 h3 p1 p2 p3 p4 hq (by omega) (by omega)
+    · by_cases hc8 : 35 ≤ (ndigits (c1 * c2) : Int) + (e1 + e2) - ndigits c3 - e3 ∨
+          ((ndigits (c1 * c2) : Int) + (e1 + e2) - ndigits c3 - e3 = 34 ∧
+            (e1 + e2) + 6176 < 34 - (ndigits (c1 * c2) : Int))
+      · exact ext_fma_ok_case8 x y z m f hx hy hz h12 h3 p1 p2 p3 p4 (by omega) hc8
+      by_cases h34 : (ndigits (c1 * c2) : Int) + (e1 + e2) - ndigits c3 - e3 = 34
+      · exact ext_fma_ok_swap_case1b x y z m f hx hy hz h12 h3 p1 p2 p3 p4 (by omega) (by omega) (by omega)
+      by_cases harm : (ndigits (c1 * c2) : Int) + (e1 + e2) - ndigits c3 - e3 ≤ 1 ∧ (s1 != s2) ≠ s3
+      · exact ext_fma_ok_swap_arm26 x y z m f hx hy hz h12 h3 p1 p2 p3 p4 (by omega) (by omega) harm.2
+      · exact absurd (Or.inr (Or.inr ⟨h12, h3, by omega, Or.inr ⟨by omega, by omega, harm⟩⟩)) hrem
+
+/-- **`bid128_ext_fma` outside the remaining cases**: for ALL operands that are not NaNs (NaN operands:
+`C12GenNaN.ext_fma_nan`, the NaN rule) and not in `FmaRemaining`, every rounding mode, every incoming status word, the routine
+returns `.ok` of the canonical encoding of the model's `fmaD` datum, some indicators, and `f ||| flags` -/
+theorem bid128_ext_fma_spec_partial (p1 p2 p3 p4 : Bool) (x y z : U128) (m : RoundingMode) (f : UInt32)
+    (hx : (dOf x).isNaN = false) (hy : (dOf y).isNaN = false) (hz : (dOf z).isNaN = false)
+    (hrem : ¬ FmaRemaining x y z) : ExtFmaOK p1 p2 p3 p4 x y z m f := by
+  by_cases hi : ((dOf x).isInf || (dOf y).isInf || (dOf z).isInf) = true
+  · exact ⟨false, false, false, false, Dec.C02GenFmaFrontSpec.front_inf p1 p2 p3 p4 x y z m f hx hy hz hi⟩
+  · simp only [Bool.or_eq_true, not_or, Bool.not_eq_true] at hi
+    obtain ⟨s1, c1, e1, hx'⟩ := fin_of_not_special _ hx hi.1.1
+    obtain ⟨s2, c2, e2, hy'⟩ := fin_of_not_special _ hy hi.1.2
+    obtain ⟨s3, c3, e3, hz'⟩ := fin_of_not_special _ hz hi.2
+    have hrem' : ¬ RemNum s1 s2 s3 c1 c2 c3 e1 e2 e3 := fun h => hrem ⟨_, _, _, _, _, _, _, _, _, hx', hy', hz', h⟩
+    by_cases h12 : c1 * c2 = 0
+    · by_cases h3 : c3 = 0
+      · subst h3
+        exact ⟨false, false, false, false, Dec.C02GenFmaFrontSpec.front_zero_zero p1 p2 p3 p4 x y z m f hx' hy' hz' h12⟩
+      · exact absurd (Or.inl ⟨h12, h3⟩) hrem'
+    · by_cases h3 : c3 = 0
+      · exact absurd (Or.inr (Or.inl ⟨h12, h3⟩)) hrem'
+      · exact ext_fma_ok_numbers p1 p2 p3 p4 x y z m f hx' hy' hz' h12 h3 hrem'
+
+/-- **`bid128_fma` outside the remaining cases** (the conditional headline): for all operands that are not NaNs
+(`C12GenNaN.fma_nan` for those) and not in `FmaRemaining`:
+`bid128_fma x y z m f = .ok (encode (fmaD …).1, f ||| (fmaD …).2)` -/
+theorem bid128_fma_spec_partial (x y z : U128) (m : RoundingMode) (f : UInt32)
+    (hx : (dOf x).isNaN = false) (hy : (dOf y).isNaN = false) (hz : (dOf z).isNaN = false)
+    (hrem : ¬ FmaRemaining x y z) : FmaOK x y z m f :=
+  FmaOK.of_ext (bid128_ext_fma_spec_partial false false false false x y z m f hx hy hz hrem)
+
+
+/-! ## 9. Multiplication, through `C01GenMul.mul_eq_fma` -/
+
+open Dec.C01GenMul (z0 dOf_z0 mul_eq_fma fmaD_z0_eq_mulD mul_zero_mulD)
+
+theorem md_eq_modeOf (m : RoundingMode) : Dec.C13GenPack.md m = modeOf m := by cases m <;> rfl
+
+/-- the statement "the routine returns the model's `mulD`" -/
+def MulOK (x y : U128) (m : RoundingMode) (f : UInt32) : Prop :=
+  bid128_mul x y m f =
+    .ok (ofBits (encode (mulD (modeOf m) (dOf x) (dOf y)).1), f ||| UInt32.ofNat (mulD (modeOf m) (dOf x) (dOf y)).2)
+
+/-- outside the zero case `bid128_mul (x, y)` is `bid128_fma (y, x, +0E+6111)`, and the model's `fmaD` there is `mulD`: so
+`FmaOK y x z0` gives `MulOK x y` -/
+theorem MulOK.of_fma {x y : U128} {m : RoundingMode} {f : UInt32}
+    (h : ¬ ((dOf x).isFin = true ∧ (dOf y).isFin = true ∧ ((dOf x).isZero = true ∨ (dOf y).isZero = true)))
+    (hf : FmaOK y x z0 m f) : MulOK x y m f := by
+  unfold MulOK
+  unfold FmaOK at hf
+  rw [mul_eq_fma x y m f h, hf, dOf_z0, fmaD_z0_eq_mulD _ _ _ h]
+
+/-- a zero among two numbers: `bid128_mul` answers itself -/
+theorem MulOK.of_zero {x y : U128} {m : RoundingMode} {f : UInt32} {s1 s2 : Bool} {c1 c2 : Nat} {e1 e2 : Int}
+    (hx : dOf x = .fin s1 c1 e1) (hy : dOf y = .fin s2 c2 e2) (hz : c1 = 0 ∨ c2 = 0) : MulOK x y m f := by
+  obtain ⟨h1, h2⟩ := mul_zero_mulD x y m f hx hy hz
+  unfold MulOK
+  rw [← md_eq_modeOf, h1, h2]
+  exact congrArg (fun g => Except.ok (_, g)) (UInt32.or_zero).symm
+
+/-- **`bid128_mul` outside the remaining case**: for all operands that are not NaNs (`C12GenNaN.mul_nan` for those) and not two
+numbers with a NON-ZERO product (that case is the `z = 0` path of `bid128_ext_fma`, in progress): zeros of every kind
+(canonical or not) and infinite operands (`∞·0` invalid) — `bid128_mul x y m f = .ok (encode (mulD …).1, f ||| (mulD …).2)` -/
+theorem bid128_mul_spec_partial (x y : U128) (m : RoundingMode) (f : UInt32)
+    (hx : (dOf x).isNaN = false) (hy : (dOf y).isNaN = false)
+    (hrem : ¬ ∃ s1 c1 e1 s2 c2 e2, dOf x = .fin s1 c1 e1 ∧ dOf y = .fin s2 c2 e2 ∧ c1 * c2 ≠ 0) : MulOK x y m f := by
+  by_cases hi : ((dOf x).isInf || (dOf y).isInf) = true
+  · -- an infinite operand: through `bid128_fma`, where the front end answers
+    refine MulOK.of_fma ?_ (bid128_fma_spec_partial y x z0 m f hy hx (by rw [dOf_z0]; rfl) ?_)
+    · rintro ⟨fx, fy, -⟩
+      rcases Bool.or_eq_true_iff.1 hi with h | h
+      · cases hd : dOf x <;> rw [hd] at fx h <;> simp [Datum.isFin, Datum.isInf] at fx h
+      · cases hd : dOf y <;> rw [hd] at fy h <;> simp [Datum.isFin, Datum.isInf] at fy h
+    · rintro ⟨s1, c1, e1, s2, c2, e2, s3, c3, e3, h1, h2, -, -⟩
+      rcases Bool.or_eq_true_iff.1 hi with h | h
+      · rw [h2] at h; simp [Datum.isInf] at h
+      · rw [h1] at h; simp [Datum.isInf] at h
+  · simp only [Bool.or_eq_true, not_or, Bool.not_eq_true] at hi
+    obtain ⟨s1, c1, e1, hx'⟩ := fin_of_not_special _ hx hi.1
+    obtain ⟨s2, c2, e2, hy'⟩ := fin_of_not_special _ hy hi.2
+    have hz : c1 = 0 ∨ c2 = 0 := by
+      by_contra hcon
+      exact hrem ⟨s1, c1, e1, s2, c2, e2, hx', hy', Nat.mul_ne_zero (fun h => hcon (Or.inl h)) (fun h => hcon (Or.inr h))⟩
+    exact MulOK.of_zero hx' hy' hz
 
 end Dec.C02GenFmaAssembly
